@@ -361,7 +361,7 @@ def run(ctx):
                                    'span' if rng.random() < 0.7 else rng.choice(RETURN_TYPES), rng.random() < 0.8,
                                    'digest' if rng.random() < 0.85 else 'config')
     # ---- D. random proteins -------------------------------------------------------------------------------
-    for _ in range(ctx.n(20000, 600000)):
+    for _ in range(ctx.n(60000, 600000)):
         n = rng.randint(0, 60) if rng.random() < 0.5 else rng.randint(0, 14)
         letters = ALL20 if rng.random() < 0.6 else 'KRPDEAFWYL'
         prot = ''.join(rng.choice(letters) for _ in range(n))
@@ -372,7 +372,7 @@ def run(ctx):
     # ---- E. three to five rules whose site sets overlap (the same sites found by several rules, a rule given twice),
     #         short site-rich proteins: the union of sites, whatever the order of the rule list
     families = [['trypsin', 'trypsin/P', 'lys-c', 'arg-c', '([KR])', 'K'], ['asp-n', 'glu-c', '(?=D)', '[DE]']]
-    for _ in range(ctx.n(4000, 120000)):
+    for _ in range(ctx.n(12000, 120000)):
         n = rng.randint(1, 9)
         prot = ''.join(rng.choice('KKRDEAP') for _ in range(n))
         fam = rng.choice(families)
@@ -381,7 +381,7 @@ def run(ctx):
         rng.shuffle(rs)
         run_digest(ctx, st, pt, prot, rs, rng.randint(0, 2), rng.random() < 0.3, None, None, True,
                    rng.choice(RETURN_TYPES), True, 'digest')
-    for _ in range(ctx.n(3000, 80000)):
+    for _ in range(ctx.n(9000, 80000)):
         n = rng.randint(0, 40)
         prot = ''.join(rng.choice('KRPDEAFWYLGS') for _ in range(n))
         # mixed-style regexes are left out of the sequential clause: a look-behind alternative sees the residue before a
@@ -394,7 +394,7 @@ def run(ctx):
     # ---- F. histories on one rule list object: the caller keeps one list (or one EnzymeConfig) and edits it in place
     #         between digests of the same protein; every call must answer for the rules the list holds at that moment
     specific = [r for r in ALL_RULES if r not in rd.NON_SPECIFIC and r != 'no-cleave']
-    for _ in range(ctx.n(1500, 40000)):
+    for _ in range(ctx.n(6000, 40000)):
         n = rng.randint(2, 30)
         prot = ''.join(rng.choice('KRPDEAFWYLGS') for _ in range(n))
         held = rng.sample(specific, rng.choice([1, 1, 2]))
